@@ -14,7 +14,9 @@ import (
 	"path/filepath"
 	"sort"
 	"strings"
+	"sync"
 	"sync/atomic"
+	"time"
 
 	"verifharness/cv"
 	"verifharness/proxykit"
@@ -25,8 +27,11 @@ type procConf struct {
 	configured int64          // < 0: discover
 	netVersion proxykit.Reply // reply to net_version when discovering
 	expectUp   bool
-	cases      int  // number of generated scenarios (quick)
-	race       bool // run the binary built with the Go race detector
+	cases      int    // number of generated scenarios (quick)
+	race       bool   // run the binary built with the Go race detector
+	layout     string // "" <addr>.key.json + <addr>.pwd; "toml": metadata files naming key and password files
+	walletYAML string // extra lines of the fileWallet block (signer cache settings)
+	listener   bool   // filesystem listener on: key files are added while the process runs
 }
 
 type desc struct {
@@ -127,6 +132,10 @@ func coqNats(xs []int) string {
 	return "[" + strings.Join(parts, "; ") + "]"
 }
 
+// processes that also get the concurrent-clients rounds
+var concurrentProcs = map[string]bool{"configured-2022": true, "discovered-hex-0x7e6": true, "race-detector-configured-5": true,
+	"toml-metadata-default-password-configured-7": true, "signer-cache-size-1b-discovered-11": true}
+
 func main() {
 	out := flag.String("out", "", "output directory")
 	tier := flag.String("tier", "quick", "quick|thorough")
@@ -201,24 +210,28 @@ func main() {
 		return q
 	}
 	procs := []procConf{
-		{"configured-2022", 2022, result(`"1"`), true, nq(70, 500), false},
-		{"discovered-hex-0x7e6", -1, result(`"0x7e6"`), true, nq(40, 300), false},
-		{"configured-1", 1, result(`"1"`), true, nq(25, 150), false},
-		{"discovered-number-1337", -1, result(`1337`), true, nq(25, 150), false},
-		{"configured-0", 0, result(`"1"`), true, nq(12, 60), false},
-		{"discovered-null-is-0", -1, result(`null`), true, nq(10, 60), false},
-		{"discovered-wraps-2^64+5", -1, result(`"18446744073709551621"`), true, nq(10, 60), false},
-		{"configured-2^40", 1 << 40, result(`"1"`), true, nq(12, 60), false},
-		{"discovered-decimal-string-4", -1, result(`"4"`), true, nq(8, 40), false},
-		{"race-detector-configured-5", 5, result(`"1"`), true, nq(26, 120), true},
-		{"discovered-2^40+7", -1, result(`"1099511627783"`), true, nq(8, 40), false},
-		{"discover-fails-rpcerror", -1, proxykit.Reply{Kind: proxykit.ReplyRPCError, Code: -32601, Message: "no such method"}, false, 0, false},
-		{"discover-fails-http500", -1, proxykit.Reply{Kind: proxykit.ReplyHTTPError, Status: 500}, false, 0, false},
-		{"discover-fails-unparsable", -1, result(`"abc"`), false, 0, false},
-		{"discover-fails-negative", -1, result(`"-5"`), false, 0, false},
-		{"discover-fails-drop", -1, proxykit.Reply{Kind: proxykit.ReplyDrop}, false, 0, false},
-		{"discover-fails-null-body", -1, proxykit.Reply{Kind: proxykit.ReplyRawBody, Body: []byte("null")}, false, 0, false},
-		{"discover-bool", -1, result(`true`), false, 0, false},
+		{"configured-2022", 2022, result(`"1"`), true, nq(70, 500), false, "", "", false},
+		{"discovered-hex-0x7e6", -1, result(`"0x7e6"`), true, nq(40, 300), false, "", "", false},
+		{"configured-1", 1, result(`"1"`), true, nq(25, 150), false, "", "", false},
+		{"discovered-number-1337", -1, result(`1337`), true, nq(25, 150), false, "", "", false},
+		{"configured-0", 0, result(`"1"`), true, nq(12, 60), false, "", "", false},
+		{"discovered-null-is-0", -1, result(`null`), true, nq(10, 60), false, "", "", false},
+		{"discovered-wraps-2^64+5", -1, result(`"18446744073709551621"`), true, nq(10, 60), false, "", "", false},
+		{"configured-2^40", 1 << 40, result(`"1"`), true, nq(12, 60), false, "", "", false},
+		{"discovered-decimal-string-4", -1, result(`"4"`), true, nq(8, 40), false, "", "", false},
+		{"race-detector-configured-5", 5, result(`"1"`), true, nq(26, 120), true, "", "", false},
+		{"discovered-2^40+7", -1, result(`"1099511627783"`), true, nq(8, 40), false, "", "", false},
+		{"toml-metadata-default-password-configured-7", 7, result(`"1"`), true, nq(14, 80), false, "toml", "", false},
+		{"signer-cache-ttl-1ms-configured-9", 9, result(`"1"`), true, nq(8, 60), false, "", "  signerCacheTTL: 1ms\n", false},
+		{"listener-keys-added-at-runtime-configured-13", 13, result(`"1"`), true, nq(8, 60), false, "", "", true},
+		{"signer-cache-size-1b-discovered-11", -1, result(`"0xb"`), true, nq(8, 60), false, "", "  signerCacheSize: 1b\n", false},
+		{"discover-fails-rpcerror", -1, proxykit.Reply{Kind: proxykit.ReplyRPCError, Code: -32601, Message: "no such method"}, false, 0, false, "", "", false},
+		{"discover-fails-http500", -1, proxykit.Reply{Kind: proxykit.ReplyHTTPError, Status: 500}, false, 0, false, "", "", false},
+		{"discover-fails-unparsable", -1, result(`"abc"`), false, 0, false, "", "", false},
+		{"discover-fails-negative", -1, result(`"-5"`), false, 0, false, "", "", false},
+		{"discover-fails-drop", -1, proxykit.Reply{Kind: proxykit.ReplyDrop}, false, 0, false, "", "", false},
+		{"discover-fails-null-body", -1, proxykit.Reply{Kind: proxykit.ReplyRawBody, Body: []byte("null")}, false, 0, false, "", "", false},
+		{"discover-bool", -1, result(`true`), false, 0, false, "", "", false},
 	}
 
 	seen := map[string]bool{}
@@ -226,21 +239,41 @@ func main() {
 		r := cv.NewRand(uint64(900 + pi))
 		g := &gen{r: r, st: st}
 		g.keys = proxykit.GenKeys(r.Bytes, 3+pi%3)
-		keyDir := filepath.Join(work, fmt.Sprintf("keys%d", pi))
-		if err := proxykit.WriteKeyDir(keyDir, g.keys); err != nil {
+		keyPath := filepath.Join(work, fmt.Sprintf("keys%d", pi))
+		var kd *keyDir
+		var err error
+		walletYAML := ""
+		if pc.layout == "toml" {
+			kd, walletYAML, err = buildTomlKeyDir(keyPath, g.keys, proxykit.GenKeys(r.Bytes, 9))
+		} else {
+			kd, err = buildKeyDir(keyPath, g.keys, proxykit.GenKeys(r.Bytes, 7))
+			if pc.walletYAML != "" {
+				walletYAML = defaultWalletYAML(keyPath, pc.walletYAML)
+			}
+			if pc.listener {
+				walletYAML = strings.Replace(defaultWalletYAML(keyPath, pc.walletYAML), "disableListener: true", "disableListener: false", 1)
+			}
+		}
+		if err != nil {
 			panic(err)
 		}
-		addrs := make([]string, len(g.keys))
-		for i, k := range g.keys {
-			addrs[i] = hex.EncodeToString(k.Address[:])
+		g.bad = kd.bad
+		coqAddrs := func(addrs []string) string {
+			var cs []string
+			for _, a := range addrs {
+				b, _ := hex.DecodeString(a)
+				cs = append(cs, cv.CoqBytes(b))
+			}
+			return "[" + strings.Join(cs, "; ") + "]"
 		}
-		sort.Strings(addrs)
-		var acctCoq []string
-		for _, a := range addrs {
-			b, _ := hex.DecodeString(a)
-			acctCoq = append(acctCoq, cv.CoqBytes(b))
+		// eth_accounts: every listed address in listing order; signable: the correctly stored keys
+		accounts := coqAddrs(kd.listed)
+		var sg []string
+		for _, k := range g.keys {
+			sg = append(sg, hex.EncodeToString(k.Address[:]))
 		}
-		accounts := "[" + strings.Join(acctCoq, "; ") + "]"
+		sort.Strings(sg)
+		signable := coqAddrs(sg)
 
 		nv := pc.netVersion
 		netVersion.Store(&nv)
@@ -256,7 +289,7 @@ func main() {
 			useBin = raceBin
 			env = []string{"GORACE=halt_on_error=0 exitcode=0"}
 		}
-		p, err := proxykit.StartProxy(proxykit.ProxyOptions{Bin: useBin, WorkDir: filepath.Join(work, fmt.Sprintf("run%d", pi)), KeyDir: keyDir, BackendURL: be.URL(), ChainID: pc.configured, Env: env})
+		p, err := proxykit.StartProxy(proxykit.ProxyOptions{Bin: useBin, WorkDir: filepath.Join(work, fmt.Sprintf("run%d", pi)), KeyDir: keyPath, BackendURL: be.URL(), ChainID: pc.configured, Env: env, FileWalletYAML: walletYAML})
 		started := err == nil
 		startFrames := be.Frames()
 		if *replay == "" || (rp.Case.Proc == pc.name && rp.Case.Index < 0) {
@@ -276,6 +309,10 @@ func main() {
 				p.Kill()
 			}
 			continue
+		}
+		// the key file of the "file-gone" address disappears once the wallet has listed it
+		if kd.goneFile != "" {
+			os.Remove(kd.goneFile)
 		}
 
 		// scenario plan for this process
@@ -332,6 +369,111 @@ func main() {
 				})
 			}
 		}
+		// round 3: multi-request histories over the addresses the wallet lists but must refuse to sign
+		// for (file holds another key / wrong or missing password / not a key file / file deleted):
+		// each of them repeatedly, singly and inside batches, interleaved with good senders, at the
+		// beginning of the process's life and again after everything else has run.
+		{
+			bads := g.bad
+			full := pi == 0 || pi == 1 || pi == 3 || pc.race || pc.layout != ""
+			if !full {
+				bads = g.bad[:2]
+				if pi%2 == 1 {
+					bads = []badAddr{g.bad[pi%2], g.bad[2+pi%4]}
+				}
+			}
+			var pre, post []func() scenario
+			for i, b := range bads {
+				i, b := i, b
+				pre = append(pre, func() scenario { return g.historySingle(g.badSpec(b, 0), "history-single-refused") })
+				pre = append(pre, func() scenario { return g.historySingle(g.badSpec(b, 1+i), "history-single-refused") })
+				post = append(post, func() scenario { return g.historySingle(g.badSpec(b, i), "history-single-refused") })
+			}
+			pre = append(pre, func() scenario { return g.historyBatch(g.bad, 2) })
+			pre = append(pre, func() scenario { return g.chainProbe(pi) })
+			pre = append(pre, func() scenario { return g.chainProbe(pi + 1) })
+			pre = append(pre, func() scenario { return g.historySingle(g.goodSpec(0, 0), "history-single-good") })
+			if full {
+				post = append(post, func() scenario { return g.historyBatch(g.bad, 1) })
+			}
+			// a few ordinary cases first, so that the good keys are cached before the refused ones are tried
+			k := 3
+			if k > len(plan) {
+				k = len(plan)
+			}
+			plan = append(append(append(append([]func() scenario{}, plan[:k]...), pre...), plan[k:]...), post...)
+		}
+		if pc.listener {
+			// round 3: the wallet's address list and key files change while the process runs (filesystem
+			// listener on): a new correctly stored key, a new file holding a foreign key, and the missing
+			// password file of the "no-password" address appear; afterwards the new addresses must be
+			// listed (in notification order), the two usable ones must sign, the mislabelled one must be
+			// refused every time.
+			p := p
+			addStep := func() scenario {
+				nk := proxykit.GenKeys(r.Bytes, 3)
+				waitListed := func(k proxykit.Key) bool {
+					want := hex.EncodeToString(k.Address[:])
+					for t := 0; t < 150; t++ {
+						res := p.Post([]byte(`{"jsonrpc":"2.0","id":"listed?","method":"eth_accounts"}`))
+						if res.Err == nil && strings.Contains(string(res.Body), want) {
+							return true
+						}
+						time.Sleep(20 * time.Millisecond)
+					}
+					return false
+				}
+				pw := "pw-added"
+				ok := writeKeyFile(keyPath, hex.EncodeToString(nk[0].Address[:]), nk[0], pw, &pw) == nil && waitListed(nk[0])
+				ok = ok && writeKeyFile(keyPath, hex.EncodeToString(nk[1].Address[:]), nk[2], pw, &pw) == nil && waitListed(nk[1])
+				if ok {
+					kd.listed = append(kd.listed, hex.EncodeToString(nk[0].Address[:]), hex.EncodeToString(nk[1].Address[:]))
+					g.keys = append(g.keys, nk[0])
+					g.bad = append(g.bad, badAddr{"wrong-key-added-at-runtime", nk[1].Address})
+					st.Hit("listener:keys-added")
+					if kd.noPwKey != nil && os.WriteFile(filepath.Join(keyPath, hex.EncodeToString(kd.noPwKey.Address[:])+proxykit.PasswordExt), []byte("pw-c"), 0o600) == nil {
+						var nb []badAddr
+						for _, b := range g.bad {
+							if b.kind != "no-password" {
+								nb = append(nb, b)
+							}
+						}
+						g.bad = nb
+						g.keys = append(g.keys, *kd.noPwKey)
+						st.Hit("listener:password-file-added")
+					}
+					accounts = coqAddrs(kd.listed)
+					var sg []string
+					for _, k := range g.keys {
+						sg = append(sg, hex.EncodeToString(k.Address[:]))
+					}
+					signable = coqAddrs(sg)
+				} else {
+					// the directory change was not (completely) observed through eth_accounts within 3 s: the
+					// wallet's state is unknown to the harness, the rest of this process's history is not judged
+					st.Extra["listener_did_not_report_added_key_files"] = true
+					return scenario{family: "skip-rest"}
+				}
+				rl := newRules()
+				s := g.single(rl, g.accounts())
+				s.family = "history-keys-added"
+				return s
+			}
+			plan = append(plan, addStep)
+			for rep := 0; rep < 3; rep++ {
+				rep := rep
+				plan = append(plan, func() scenario { return g.historySingle(g.goodSpec(len(g.keys)-1, rep), "history-keys-added") })
+				plan = append(plan, func() scenario { return g.historySingle(g.goodSpec(len(g.keys)-2, rep+1), "history-keys-added") })
+				plan = append(plan, func() scenario { return g.historySingle(g.badSpec(g.bad[len(g.bad)-1], rep), "history-keys-added") })
+			}
+			plan = append(plan, func() scenario { return g.historyBatch(g.bad, 1) })
+			plan = append(plan, func() scenario {
+				rl := newRules()
+				s := g.single(rl, g.accounts())
+				s.family = "history-keys-added"
+				return s
+			})
+		}
 		if pi == 0 {
 			// regression corpus: the witnesses of the repaired defects D09a, D09b, D09c
 			for k := 0; k < 9; k++ {
@@ -350,14 +492,15 @@ func main() {
 			}
 		}
 
-		raceSeen := 0
-		for ci, mk := range plan {
-			sc := mk()
-			cur.Store(sc.rules)
-			be.Reset()
-			os.WriteFile(filepath.Join(*out, "current_case.json"), []byte(fmt.Sprintf(`{"proc":%q,"index":%d,"body":%q}`, pc.name, ci, clip(string(sc.body), 2000))), 0o644)
-			res := p.Post(sc.body)
-			frames := be.Frames()
+		nvFrame := proxykit.Frame{Method: "net_version", Replied: true}
+		if len(startFrames) > 0 {
+			nvFrame = startFrames[0]
+		}
+		var extra []proxykit.Frame
+		if pc.configured < 0 {
+			extra = []proxykit.Frame{nvFrame}
+		}
+		record := func(ci int, sc scenario, res proxykit.Response, frames []proxykit.Frame) {
 			status := res.Status
 			if res.Err != nil {
 				status = 0
@@ -372,15 +515,7 @@ func main() {
 			if sc.tree != nil {
 				treeCoq = "(Some " + sc.tree.Coq() + ")"
 			}
-			nvFrame := proxykit.Frame{Method: "net_version", Replied: true}
-			if len(startFrames) > 0 {
-				nvFrame = startFrames[0]
-			}
-			var extra []proxykit.Frame
-			if pc.configured < 0 {
-				extra = []proxykit.Frame{nvFrame}
-			}
-			term := fmt.Sprintf("(CReq (%d)%%Z %s %s %s %s %s %s %d %s %s)", pc.configured, coqTable(extra, nil), coqTable(frames, nil), accounts,
+			term := fmt.Sprintf("(CReq (%d)%%Z %s %s %s %s %s %s %s %d %s %s)", pc.configured, coqTable(extra, nil), coqTable(frames, nil), accounts, signable,
 				cv.Compress(bodyPrefix(sc.body)).Coq(), treeCoq, coqNats(sc.order), status, replyCoq, coqFrames(frames))
 			d := desc{Proc: pc.name, Index: ci, Family: sc.family, Body: clip(string(sc.body), 6000), Status: status, Reply: clip(string(res.Body), 3000), Order: sc.order}
 			for i := range frames {
@@ -404,6 +539,20 @@ func main() {
 					fmt.Printf("implementation: status=%d reply=%s\nframes:\n  %s\n", status, clip(string(res.Body), 2000), strings.Join(d.Frames, "\n  "))
 				}
 			}
+		}
+		raceSeen := 0
+		dead := false
+		for ci, mk := range plan {
+			sc := mk()
+			if sc.family == "skip-rest" {
+				break
+			}
+			cur.Store(sc.rules)
+			be.Reset()
+			os.WriteFile(filepath.Join(*out, "current_case.json"), []byte(fmt.Sprintf(`{"proc":%q,"index":%d,"body":%q}`, pc.name, ci, clip(string(sc.body), 2000))), 0o644)
+			res := p.Post(sc.body)
+			frames := be.Frames()
+			record(ci, sc, res, frames)
 			if pc.race {
 				log := p.Log()
 				mine, other := classifyRaces(log[raceSeen:])
@@ -418,6 +567,7 @@ func main() {
 				if len(mine) > 0 {
 					st.ImplFailures = append(st.ImplFailures, map[string]interface{}{"what": "the Go race detector reports a data race inside internal/rpcserver or pkg/rpcbackend while serving this request (unsynchronised access to shared state of the batch fan-out / backend client)", "key": "C09/data-race",
 						"proc": pc.name, "index": ci, "body": clip(string(sc.body), 4000), "race_report": clip(mine[0], 2500)})
+					dead = true
 					break
 				}
 			}
@@ -425,7 +575,83 @@ func main() {
 				code, _ := p.ExitCode()
 				st.ImplFailures = append(st.ImplFailures, map[string]interface{}{"what": "the ffsigner process exited while serving a request", "key": "C09/process-exit",
 					"proc": pc.name, "index": ci, "body": clip(string(sc.body), 4000), "exit_code": code, "log_tail": clip(tail(p.Log(), 1500), 1500)})
+				dead = true
 				break
+			}
+		}
+		// round 3: several clients at once (state shared between requests in flight: pooled buffers,
+		// fields of the server / backend client / wallet written per request)
+		if !dead && p.Alive() && concurrentProcs[pc.name] {
+			rounds := 2
+			if thorough {
+				rounds = 8
+			}
+			for round := 0; round < rounds && p.Alive(); round++ {
+				rl, css := g.concurrentRound(8)
+				cur.Store(rl)
+				be.Reset()
+				os.WriteFile(filepath.Join(*out, "current_case.json"), []byte(fmt.Sprintf(`{"proc":%q,"stage":"concurrent round %d"}`, pc.name, round)), 0o644)
+				results := make([]proxykit.Response, len(css))
+				var wg sync.WaitGroup
+				for i := range css {
+					wg.Add(1)
+					go func(i int) {
+						defer wg.Done()
+						results[i] = p.Post(css[i].sc.body)
+					}(i)
+				}
+				wg.Wait()
+				all := be.Frames()
+				per := make([][]proxykit.Frame, len(css))
+				for fi := range all {
+					f := all[fi]
+					owner := -1
+					k := frameKey(f.Method, f.Params)
+					for i := range css {
+						if css[i].keys[k] {
+							owner = i
+							break
+						}
+					}
+					if owner < 0 && f.Method == "eth_sendRawTransaction" {
+						tok := rawToken(f.Params)
+						for i := range css {
+							if results[i].Err == nil && strings.Contains(string(results[i].Body), tok) {
+								owner = i
+								break
+							}
+						}
+					}
+					if owner >= 0 {
+						per[owner] = append(per[owner], f)
+					} else {
+						// nobody's: a frame no request of this round demands, or a submission whose result reached no caller
+						st.Hit("concurrent:unattributed-frame")
+						if os.Getenv("C09_DEBUG") != "" {
+							fmt.Fprintf(os.Stderr, "unattributed in %s: %s\n", pc.name, clip(string(f.Raw), 300))
+						}
+						for i := range per {
+							per[i] = append(per[i], f)
+						}
+					}
+				}
+				for i := range css {
+					record(len(plan)+round*len(css)+i, css[i].sc, results[i], per[i])
+				}
+				if pc.race {
+					mine, _ := classifyRaces(p.Log()[raceSeen:])
+					raceSeen = len(p.Log())
+					if len(mine) > 0 {
+						st.ImplFailures = append(st.ImplFailures, map[string]interface{}{"what": "the Go race detector reports a data race inside the proxy's packages while serving several clients at once", "key": "C09/data-race",
+							"proc": pc.name, "index": len(plan) + round*len(css), "race_report": clip(mine[0], 2500)})
+						break
+					}
+				}
+				if !p.Alive() {
+					code, _ := p.ExitCode()
+					st.ImplFailures = append(st.ImplFailures, map[string]interface{}{"what": "the ffsigner process exited while serving concurrent requests", "key": "C09/process-exit",
+						"proc": pc.name, "index": len(plan) + round*len(css), "exit_code": code, "log_tail": clip(tail(p.Log(), 1500), 1500)})
+				}
 			}
 		}
 		if p.Alive() {
@@ -471,7 +697,9 @@ func classifyRaces(log string) (mine, other []string) {
 				if strings.HasPrefix(f, "sync/atomic.") || strings.HasPrefix(f, "runtime.") || strings.HasPrefix(f, "reflect.") || strings.HasPrefix(f, "encoding/json.") {
 					continue
 				}
-				if strings.Contains(f, "firefly-signer/internal/rpcserver.") || strings.Contains(f, "firefly-signer/pkg/rpcbackend.") {
+				if strings.Contains(f, "firefly-signer/internal/rpcserver.") || strings.Contains(f, "firefly-signer/pkg/rpcbackend.") ||
+					strings.Contains(f, "firefly-signer/pkg/fswallet.") || strings.Contains(f, "firefly-signer/pkg/ethsigner.") || strings.Contains(f, "firefly-signer/pkg/keystorev3.") {
+					// round 3: the wallet and the signer are part of the proxy's request path (pooled or shared objects there are state kept across requests)
 					relevant = true
 				}
 				break
